@@ -28,3 +28,6 @@ func findCheck(id string) *Check {
 	}
 	return nil
 }
+
+// schedTrack: coarse component atomics + happens-before access probes (C19).
+var schedTrack = Build{Kind: "sched", Coarse: []string{"rbmutex.go", "counter.go", "buffer.go"}, Track: true}
